@@ -23,7 +23,12 @@ from lib import coq_list as L, coq_nat as N
 THEOREMS = ['C14_scan_terminates', 'C14_fuel_irrelevant', 'C14_scan_ordered', 'C14_scan_no_ignored_edges', 'C14_scan_positions_global',
             'C14_scan_longest_wrt_tokens', 'C14_scan_value_eq_parse', 'C14_scan_longest', 'C14_scan_no_miss',
             'C14_search_scanner', 'C14_line_counter', 'C14_scan_no_miss_refuted', 'C14_scan_no_miss_head_refuted',
-            'C14_example']
+            'C14_example',
+            'C14_lexer_chain_instantiated', 'C14_lexer_model_instantiated', 'C14_loop_lexer_exact_instantiated',
+            'C14_feed_prefix_closed_instantiated',
+            'C14_stunted_incremental', 'C14_trial_cannot_disturb', 'C14_H_stable_instantiated',
+            'C14_scan_value_eq_parse_instantiated', 'C14_scan_value_eq_parse_substring_instantiated',
+            'C14_scan_longest_instantiated', 'C14_scan_no_miss_instantiated', 'C14_instantiated_example']
 GEN_DEPS = ['ScanHoles']
 RULE = ('random LALR grammars (1-3 nonterminals, EBNF operators, nullable starts, keywords through the unless '
         'mechanism, ignored whitespace / comment terminals whose bodies overlap real terminals) x lexer in '
@@ -38,7 +43,8 @@ TRUSTED_BASE = ['the lexer, the LALR driver and Python re are oracles of the mod
                 'run-time observation by wrapping search_start, ParsingFrontend.parse_interactive, '
                 'ParserState.feed_token and BasicLexer.match; the lexer / parser oracle tables come from an independent '
                 'driver (interactive parser + lexer run outside _scan) and must agree with what _scan itself lexed and fed']
-ASSUMPTIONS = ['H_stable (lexing a snippet alone yields the corresponding prefix of lexing the rest of the text, and '
+ASSUMPTIONS = ['instantiated theorems (round 6): regex-oracle properties scan_positive, scan_bounded, scan_endfree (no look-ahead); H_nonignored_wins (F28 exclusion) and H_search_covers for no_miss; per snippet the decidable boundary condition (F8 exclusion); scan_endfree, boundary <-> stable and H_search_covers are checked on the implementation for every generated case',
+               'H_stable (lexing a snippet alone yields the corresponding prefix of lexing the rest of the text, and '
                'conversely for accepted snippets) for scan_value_eq_parse / scan_longest / scan_no_miss; fails for '
                'greedy tokens crossing the snippet end (F8)',
                'H_head (at a search result the first token the lexer produces is not an ignored one) for scan_no_miss; '
@@ -316,6 +322,9 @@ def observe_scan(p, text, a, b, whole):
     return dict(turns=turns, final=final, matches=matches, error=err)
 
 
+HYP_FAILS = []      # failures of the oracle hypotheses of the instantiated theorems, drained by run_case
+
+
 def independent_stream(p, text, m, b):
     """the lexer / parser oracles at position m, obtained *outside* _scan by a driver of our own: every lexer
     match from m on (ignored included) in lockstep with an interactive parser; for every token whether the feed
@@ -331,6 +340,14 @@ def independent_stream(p, text, m, b):
         res = orig_match(lexer, txt, pos)
         if res is not None:
             raw.append((pos, pos + len(res[0]), res[1], res[1] in lexer.ignore_types))
+            # scan_endfree (hypothesis of the instantiated theorems): cutting the text anywhere after the end of
+            # the match does not change the match
+            for e in range(pos + len(res[0]), txt.end):
+                r2 = orig_match(lexer, TextSlice(txt.text, txt.start, e), pos)
+                if r2 != res:
+                    HYP_FAILS.append(('scan_endfree', 'terminal %s at %d: window end %d gives %r, window end %d gives %r'
+                                      % (res[1], pos, txt.end, res, e, r2)))
+                    break
         return res
     BasicLexer.match = match
     try:
@@ -544,19 +561,42 @@ def property_oracle(p, text, a, b, matches, restrict, stats=None):
             except UnexpectedInput:
                 ok[(s, e)] = False
     streams = {}
+    bounds = {}
+    starts = set(start_positions(p, text, a, b))
 
     def stream_from(s):
         if s not in streams:
             streams[s] = pull_tokens(p, text[s:b], s)[0]
         return streams[s]
+
+    def boundaries_from(s):
+        """ends of the lexer matches (ignored included) of lexing the rest of the window from s"""
+        if s not in bounds:
+            try:
+                bounds[s] = set(r[1] for r in independent_stream(p, text, s, b)[0])
+            except Exception as ex:   # noqa - a defect of the lexer / parser under test can break the driver
+                HYP_FAILS.append(('driver', 'independent oracle driver raised %s' % type(ex).__name__))
+                bounds[s] = set()
+        return bounds[s]
     info = {}
 
     def snippet_info(s, e):
-        """(tight, stable) for a snippet that parses"""
+        """(tight, stable) for a snippet that parses.  stable = H_stable for this snippet; the instantiated
+        theorems derive it from [boundaryb s e] (a token boundary of lexing the rest of the text falls on e) and
+        scan_endfree, and assume H_search_covers: both are checked here on the implementation."""
         if (s, e) not in info:
             toks, fed = pull_tokens(p, text[s:e], s)
             tight = bool(toks) and toks[0][1] == s and toks[-1][2] == e
             stable = toks == stream_from(s)[:len(toks)]
+            if tight:
+                boundary = e in boundaries_from(s)
+                if boundary != stable:
+                    HYP_FAILS.append(('boundary_iff_stable', 'snippet (%d,%d): token boundary at the end = %s but '
+                                      'snippet tokens %s a prefix of the stream lexed from %d'
+                                      % (s, e, boundary, 'are' if stable else 'are not', s)))
+                if s not in starts:
+                    HYP_FAILS.append(('H_search_covers', 'snippet (%d,%d) parses and begins with a token at %d, where '
+                                      'no terminal of the search scanner matches' % (s, e, s)))
             info[(s, e)] = (tight, stable)
         return info[(s, e)]
     # each match
@@ -599,6 +639,7 @@ def run_case(cfg, text, a, b, whole, restrict, stats=None):
     p = cfg.get('_p') or build(cfg)
     cfg['_p'] = p
     data = text.encode('latin-1') if cfg['use_bytes'] else text
+    del HYP_FAILS[:]
     obs = observe_scan(p, data, a, b, whole)
     if obs['error']:
         return obs, None, None, ('raised', 'scan() raised %s' % obs['error'])
@@ -674,6 +715,12 @@ def correspond(ctx):
                                                    for t in obs['turns'])),
                       newline_before_match=int(any(t['range'] and (t['snap'][2] or 1) > 1 for t in obs['turns'])))
             w = witness(cfg, text, a, b, whole, general)
+            for name in sorted(set(h[0] for h in HYP_FAILS)):
+                det = [h[1] for h in HYP_FAILS if h[0] == name][0]
+                stats['hypothesis_' + name] = stats.get('hypothesis_' + name, 0) + 1
+                ctx.violation('instantiation-hypothesis:' + name,
+                              dict(w, no_longer_checks='oracle hypothesis %s of the instantiated C14 theorems' % name),
+                              False, det)
             if verdict:
                 ctx.violation('property-oracle:' + verdict[0], w, True, verdict[1])
             if terr:
